@@ -68,6 +68,22 @@ def getIndex(idx, pos):
     return int(idx.value)
 
 
+def getDestructuringValues(value, count, pos):
+    if value.isList():
+        vals = value.value
+    elif value.isSet():
+        vals = value.getSortedItems()
+    else:
+        raise CklRuntimeError(
+            ValueString("ERROR"),
+            f"Destructuring for expects list or set but got {value.type()}",
+            pos,
+        )
+    if len(vals) < count:
+        vals = list(vals) + [NULL] * (count - len(vals))
+    return vals
+
+
 def getFuncallString(fn, args):
     return f"{fn.name}({args.toStringAbbrev()})"
 
@@ -809,10 +825,9 @@ class NodeFor:
                     if len(self.identifiers) == 1:
                         environment.put(self.identifiers[0], value)
                     else:
-                        if value.isList():
-                            vals = value.value
-                        elif value.isSet():
-                            vals = value.value.sortedValues()
+                        vals = getDestructuringValues(
+                            value, len(self.identifiers), self.pos
+                        )
                         for i in range(len(self.identifiers)):
                             environment.put(self.identifiers[i], vals[i])
 
@@ -844,10 +859,9 @@ class NodeFor:
                 if len(self.identifiers) == 1:
                     environment.put(self.identifiers[0], value)
                 else:
-                    if value.isList():
-                        vals = value.value
-                    elif value.isSet():
-                        vals = value.getSortedItems()
+                    vals = getDestructuringValues(
+                        value, len(self.identifiers), self.pos
+                    )
                     for i in range(len(self.identifiers)):
                         environment.put(self.identifiers[i], vals[i])
                 result = self.block.evaluate(environment)
@@ -874,10 +888,9 @@ class NodeFor:
                 if len(self.identifiers) == 1:
                     environment.put(self.identifiers[0], value)
                 else:
-                    if value.isList():
-                        vals = value.value
-                    elif value.isSet():
-                        vals = value.getSortedItems()
+                    vals = getDestructuringValues(
+                        value, len(self.identifiers), self.pos
+                    )
                     for i in range(len(self.identifiers)):
                         environment.put(self.identifiers[i], vals[i])
                 result = self.block.evaluate(environment)
@@ -913,10 +926,9 @@ class NodeFor:
                 if len(self.identifiers) == 1:
                     environment.put(self.identifiers[0], val)
                 else:
-                    if val.isList():
-                        vals = val.value
-                    elif val.isSet():
-                        vals = val.value.sortedValues()
+                    vals = getDestructuringValues(
+                        val, len(self.identifiers), self.pos
+                    )
                     for i in range(len(self.identifiers)):
                         environment.put(self.identifiers[i], vals[i])
                 result = self.block.evaluate(environment)
@@ -952,10 +964,9 @@ class NodeFor:
                 if len(self.identifiers) == 1:
                     environment.put(self.identifiers[0], val)
                 else:
-                    if val.isList():
-                        vals = val.value
-                    elif val.isSet():
-                        vals = val.value.sortedValues()
+                    vals = getDestructuringValues(
+                        val, len(self.identifiers), self.pos
+                    )
                     for i in range(len(self.identifiers)):
                         environment.put(self.identifiers[i], vals[i])
                 result = self.block.evaluate(environment)
